@@ -247,14 +247,15 @@ def evaluate__instance_expression(self: XPathToken, context: ta.ContextType = No
         if context is None:
             raise self.missing_context()
 
-        for position, context.item in enumerate(self[0].select(context)):
-            if context.axis is None:
-                context.axis = 'self'
+        test_context = copy(context)  # the focus of the caller is left untouched
+        if test_context.axis is None:
+            test_context.axis = 'self'
 
-            result = self[1].evaluate(context)
+        for position, item in enumerate(self[0].select(context)):
+            test_context.item = item
+            result = self[1].evaluate(test_context)
             if isinstance(result, list) and not result:
-                return isinstance(context.item, XPathFunction) and \
-                    context.item.name == XSD_ERROR
+                return isinstance(item, XPathFunction) and item.name == XSD_ERROR
             elif position and occurs in ('', '?'):
                 return False
         else:
